@@ -184,6 +184,16 @@ class SymEx:
                                self._model(m3))
                     self.claims.append(cl)
                     return False
+                if c.last_model is not None:
+                    # an input found earlier on this path (it satisfies the path condition
+                    # as it stood then); the replay decides, a pass leaves it inconclusive
+                    try:
+                        cl = Claim(label, 'cand', 'solver unknown; earlier path model tried',
+                                   self._model(c.last_model))
+                        self.claims.append(cl)
+                        return False
+                    except Exception:
+                        pass
                 self.claims.append(Claim(label, 'inconclusive', 'solver unknown'))
                 return False
             self.claims.append(Claim(label, 'cand', detail, self._model(m)))
